@@ -37,7 +37,7 @@ let s_qname (p, l) = s_pfx p ^ "," ^ s_atom l
 let s_ename (u, l) = string_of_int (int_of_n u) ^ "," ^ s_atom l
 let s_hz = function
   | HK3 -> "K3" | HXmlish -> "Xmlish" | HK16 -> "K16" | HK17 -> "K17" | HShadow -> "Shadow" | HLeak -> "Leak"
-  | HXmlPrefix -> "XmlPrefix" | HDeclAttr -> "DeclAttr" | HElemEmptyNs -> "ElemEmptyNs" | HElemUndecl -> "ElemUndecl"
+  | HXmlPrefix -> "XmlPrefix" | HDeclAttr -> "DeclAttr" | HElemEmptyNs -> "ElemEmptyNs" | HExclDefault -> "ExclDefault" | HElemUndecl -> "ElemUndecl"
   | HUnsupported -> "Unsupported"
 let s_event = function
   | EStart (q, req, attrs) ->
